@@ -79,3 +79,179 @@ try:
     ITEMS += _C12
 except ImportError:
     pass
+
+
+# ----------------------------------------------------------------------------- C08: dunder tables
+# Comparison / hash dunder methods of the pattern and basis classes: for every class the
+# `isinstance` guard on `other`, what is returned when the guard fails, the kind of body, and the
+# kind of `__hash__` body - read from the AST of the current source.
+
+_C08_CLASSES = [
+    ("Perm", "permuta/patterns/perm.py"),
+    ("MeshPatt", "permuta/patterns/meshpatt.py"),
+    ("BivincularPatt", "permuta/patterns/bivincularpatt.py"),
+    ("VincularPatt", "permuta/patterns/bivincularpatt.py"),
+    ("CovincularPatt", "permuta/patterns/bivincularpatt.py"),
+    ("Basis", "permuta/perm_sets/basis.py"),
+    ("MeshBasis", "permuta/perm_sets/basis.py"),
+]
+_C08_METHS = [("eq", "__eq__"), ("ne", "__ne__"), ("lt", "__lt__"), ("le", "__le__"), ("gt", "__gt__"), ("ge", "__ge__")]
+_C08_OPS = {ast.Lt: "lt", ast.LtE: "le", ast.Gt: "gt", ast.GtE: "ge", ast.Eq: "eq"}
+
+
+def _c08_classdef(repo, cls, rel):
+    tree = ast.parse(open(os.path.join(repo, rel)).read())
+    for node in tree.body:
+        if isinstance(node, ast.ClassDef) and node.name == cls:
+            return node
+    raise LookupError("class %s not found in %s" % (cls, rel))
+
+
+def _c08_body(fn):
+    body = list(fn.body)
+    if body and isinstance(body[0], ast.Expr) and isinstance(getattr(body[0], "value", None), ast.Constant) \
+            and isinstance(body[0].value.value, str):
+        body = body[1:]
+    return body
+
+
+def _c08_guard_of(test):
+    """`isinstance(other, X)` -> Lean DGuard term"""
+    if not (isinstance(test, ast.Call) and isinstance(test.func, ast.Name) and test.func.id == "isinstance"
+            and len(test.args) == 2 and isinstance(test.args[0], ast.Name) and test.args[0].id == "other"):
+        raise ValueError("guard is not isinstance(other, X): " + ast.unparse(test))
+    x = ast.unparse(test.args[1])
+    if x == "self.__class__":
+        return ".selfClass"
+    names = [c for c, _ in _C08_CLASSES]
+    if x in names:
+        return "(.named .%s)" % x
+    raise ValueError("guard class not modelled: " + x)
+
+
+def _c08_classify(expr):
+    """kind of the expression returned after the guard -> Lean DBody term"""
+    s = ast.unparse(expr)
+    if isinstance(expr, ast.Compare) and len(expr.ops) == 1 and type(expr.ops[0]) in _C08_OPS:
+        op = _C08_OPS[type(expr.ops[0])]
+        l, r = ast.unparse(expr.left), ast.unparse(expr.comparators[0])
+        if l == "(len(self), tuple(self))" and r == "(len(other), tuple(other))":
+            return "(.lenTuple .%s)" % op
+        if l == "(self.pattern, sorted(self.shading))" and r == "(other.pattern, sorted(other.shading))":
+            return "(.meshKey .%s)" % op
+    if isinstance(expr, ast.Call) and isinstance(expr.func, ast.Attribute) and len(expr.args) == 1 \
+            and ast.unparse(expr.args[0]) == "self" and ast.unparse(expr.func.value) == "other":
+        for m, d in _C08_METHS:
+            if expr.func.attr == d:
+                return "(.swapped .%s)" % m
+    if isinstance(expr, ast.BoolOp) and isinstance(expr.op, ast.And):
+        parts = sorted(ast.unparse(v) for v in expr.values)
+        if parts == ["self.pattern == other.pattern", "self.shading == other.shading"]:
+            return ".fieldsEq"
+    if s == "tuple.__eq__(self, other)":
+        return ".tupleEq"
+    if s == "not self == other":
+        return ".notEq"
+    raise ValueError("unrecognised dunder body: " + s)
+
+
+def _c08_dunder(fn):
+    body = _c08_body(fn)
+    # A: if not isinstance(other, X): return NotImplemented ; return expr
+    if len(body) == 2 and isinstance(body[0], ast.If) and isinstance(body[0].test, ast.UnaryOp) \
+            and isinstance(body[0].test.op, ast.Not) and not body[0].orelse and len(body[0].body) == 1 \
+            and isinstance(body[0].body[0], ast.Return) and isinstance(body[1], ast.Return):
+        g = _c08_guard_of(body[0].test.operand)
+        rv = ast.unparse(body[0].body[0].value)
+        if rv not in ("NotImplemented", "False"):
+            raise ValueError("guard failure returns " + rv)
+        return g, (".retNotImplemented" if rv == "NotImplemented" else ".retFalse"), _c08_classify(body[1].value)
+    # B: if isinstance(other, X): return expr ; return False
+    if len(body) == 2 and isinstance(body[0], ast.If) and not body[0].orelse and len(body[0].body) == 1 \
+            and isinstance(body[0].body[0], ast.Return) and isinstance(body[1], ast.Return):
+        g = _c08_guard_of(body[0].test)
+        rv = ast.unparse(body[1].value)
+        if rv not in ("NotImplemented", "False"):
+            raise ValueError("guard failure returns " + rv)
+        return g, (".retNotImplemented" if rv == "NotImplemented" else ".retFalse"), _c08_classify(body[0].body[0].value)
+    if len(body) == 1 and isinstance(body[0], ast.Return):
+        e = body[0].value
+        # C: return isinstance(other, X) and expr
+        if isinstance(e, ast.BoolOp) and isinstance(e.op, ast.And) and len(e.values) == 2 \
+                and isinstance(e.values[0], ast.Call) and ast.unparse(e.values[0].func) == "isinstance":
+            return _c08_guard_of(e.values[0]), ".retFalse", _c08_classify(e.values[1])
+        # D: no guard
+        return ".noGuard", ".retNotImplemented", _c08_classify(e)
+    raise ValueError("unrecognised dunder shape in %s" % fn.name)
+
+
+def _c08_hash(fn):
+    body = _c08_body(fn)
+    if len(body) != 1 or not isinstance(body[0], ast.Return):
+        raise ValueError("unrecognised __hash__ shape")
+    s = ast.unparse(body[0].value)
+    if s in ("hash((self.pattern, self.shading))", "hash((self.shading, self.pattern))"):
+        return ".valueHash"
+    if s == "tuple.__hash__(self)":
+        return ".tupleHash"
+    if s == "hash(super())":
+        return ".identityOfTemporary"
+    if s in ("super().__hash__()", "MeshPatt.__hash__(self)"):
+        return ".superHash"
+    raise ValueError("unrecognised __hash__ body: " + s)
+
+
+def c08_dunders(repo):
+    names = [c for c, _ in _C08_CLASSES]
+    out = ["/-! ### C08: comparison / hash dunders (guards, failure value, body kind) -/",
+           "inductive DCls where", "  | " + " | ".join(names), "deriving DecidableEq, Repr",
+           "inductive DMeth where", "  | eq | ne | lt | le | gt | ge", "deriving DecidableEq, Repr",
+           "/-- the `isinstance(other, …)` test at the top of a comparison dunder -/",
+           "inductive DGuard where", "  | noGuard | selfClass | named (c : DCls)", "deriving DecidableEq, Repr",
+           "/-- what the dunder returns when the guard fails -/",
+           "inductive DFail where", "  | retFalse | retNotImplemented", "deriving DecidableEq, Repr",
+           "/-- the expression returned when the guard passes:",
+           "    `lenTuple op`  = `(len(self), tuple(self)) op (len(other), tuple(other))`,",
+           "    `meshKey op`   = `(self.pattern, sorted(self.shading)) op (other.pattern, sorted(other.shading))`,",
+           "    `swapped m`    = `other.__m__(self)`,",
+           "    `fieldsEq`     = `self.pattern == other.pattern and self.shading == other.shading`,",
+           "    `tupleEq`      = `tuple.__eq__(self, other)`,",
+           "    `notEq`        = `not self == other` -/",
+           "inductive DBody where", "  | lenTuple (op : DMeth) | meshKey (op : DMeth) | swapped (m : DMeth) | fieldsEq | tupleEq | notEq",
+           "deriving DecidableEq, Repr",
+           "structure DDunder where", "  guard : DGuard", "  fail : DFail", "  body : DBody", "deriving DecidableEq, Repr",
+           "/-- body of `__hash__`: `hash((self.pattern, self.shading))` | `tuple.__hash__(self)` |",
+           "    `hash(super())` (identity of a temporary `super` object) | `super().__hash__()` |",
+           "    not defined in the class body -/",
+           "inductive DHash where", "  | valueHash | tupleHash | identityOfTemporary | superHash | notDefined",
+           "deriving DecidableEq, Repr", ""]
+    parents, tuples, dund, hashes = [], [], [], []
+    for cls, rel in _C08_CLASSES:
+        node = _c08_classdef(repo, cls, rel)
+        par, is_tuple = "none", "false"
+        for b in node.bases:
+            bs = ast.unparse(b)
+            if bs in names and par == "none":
+                par = "some .%s" % bs
+            if bs == "tuple" or bs.startswith("Tuple["):
+                is_tuple = "true"
+        parents.append("  | .%s => %s" % (cls, par))
+        tuples.append("  | .%s => %s" % (cls, is_tuple))
+        meths = {f.name: f for f in node.body if isinstance(f, ast.FunctionDef)}
+        for m, d in _C08_METHS:
+            if d in meths:
+                g, f, b = _c08_dunder(meths[d])
+                dund.append("  | .%s, .%s => some ⟨%s, %s, %s⟩  -- %s:%d" % (cls, m, g, f, b, rel, meths[d].lineno))
+        if "__hash__" in meths:
+            hashes.append("  | .%s => %s  -- %s:%d" % (cls, _c08_hash(meths["__hash__"]), rel, meths["__hash__"].lineno))
+        else:
+            hashes.append("  | .%s => .notDefined" % cls)
+    out += ["/-- first base class among the modelled classes -/", "def dParent : DCls → Option DCls"] + parents + [""]
+    out += ["/-- `tuple` is a direct base class -/", "def dIsTuple : DCls → Bool"] + tuples + [""]
+    out += ["/-- `none`: the class body does not define the method (it is inherited) -/",
+            "def dunder : DCls → DMeth → Option DDunder"] + dund + ["  | _, _ => none", ""]
+    out += ["def hashBody : DCls → DHash"] + hashes
+    return out
+
+
+ITEMS.append(c08_dunders)
